@@ -40,7 +40,9 @@ RECURSIVE Bytes(_)
 Bytes(ps) == IF ps = <<>> THEN <<>> ELSE ps[1].pl \o Bytes(Tail(ps))
 
 \* ---- packet_pool.go: add ---------------------------------------------------
-Dup(mps, p) == Len(mps) > 0 /\ p.hp /\ p.cc = Last(mps).cc
+\* a duplicate repeats counter, unit start flag and payload of the packet before it (only its PCR may differ); the same counter with another
+\* payload is what follows a loss of exactly CCMOD - 1 packets
+Dup(mps, p) == Len(mps) > 0 /\ p.hp /\ p.cc = Last(mps).cc /\ p.pusi = Last(mps).pusi /\ p.pl = Last(mps).pl
 Disc(mps, p) == p.disc \/ (Len(mps) > 0 /\ ((p.hp /\ p.cc # (Last(mps).cc + 1) % CCMOD) \/ (~p.hp /\ p.cc # Last(mps).cc)))
 
 \* the result of adding p with queues q and PMT PIDs pmap:
